@@ -954,6 +954,8 @@ def run(ctx: Any, prog: Program) -> None:
                         continue
                     if isinstance(par, ast.Starred):
                         continue            # unpacked into separate values
+                    if isinstance(par, ast.Call) and u in par.args and (dotted(par.func) or '').split('.')[-1] in MUT_CTORS | {'FrozenVec', 'FrozenAngle', 'FrozenMatrix', 'str', 'repr', 'bool', 'int', 'float'}:
+                        continue            # `Vec(shared)`: a copy is made per record
                     bad = bad or u
                 n_hoist += 1
                 ctx.check('C11.L29', bad is None, bsp, bad or lp, f'BSP.{qn} makes `{nm} = {U(st.value)[:40]}` once, before the record loop, and then uses it as a value for every record '
